@@ -93,7 +93,11 @@ def step (s : State) (a : Arrival α) : State × List (Elem α) :=
   if s.missingTerm = 0 then (s, [])        -- already terminated: nothing is ever consumed again
   else
   match a with
-  | .timeout => (s, [.flushBatch])
+  | .timeout =>
+    -- the fake `FlushBatch` of a receive timeout: a pending announcement goes out first
+    match s.pending with
+    | some p => ({ s with pending := none }, [.wm p, .flushBatch])
+    | none => (s, [.flushBatch])
   | .elem r e =>
     match e with
     | .wm t =>
@@ -115,7 +119,10 @@ def step (s : State) (a : Arrival α) : State × List (Elem α) :=
       match s.pending with
       | some p => ({ s with pending := none }, [.wm p, .ts a t])
       | none => (s, [.ts a t])
-    | .flushBatch => (s, [.flushBatch])
+    | .flushBatch =>
+      match s.pending with
+      | some p => ({ s with pending := none }, [.wm p, .flushBatch])
+      | none => (s, [.flushBatch])
 
 /-- Outputs of a whole arrival sequence, each tagged with the index of the arrival causing it. -/
 def runFrom (s : State) (i : Nat) : List (Arrival α) → List (Nat × Elem α)
